@@ -13,6 +13,7 @@ import networkx as nx
 
 from engine import circuits as cz
 from engine import project as pj
+from engine import stabgen as sg
 
 
 def shuffled_insertion(rng, g):
@@ -28,7 +29,21 @@ def shuffled_insertion(rng, g):
     return h
 
 
-def solve(graph, rep, backend, setting=1, again=False, view=None):
+def signed_gauge_target(rng, graph):
+    """|G> as a stabilizer QuantumState whose generators are signed PRODUCTS of the textbook ones (what a stabilizer
+    simulation hands out): the same state, another generating set, at least one minus sign when one can be found"""
+    from graphiq.state import QuantumState
+    n = graph.number_of_nodes()
+    base = sg.graph_generators(graph, n)
+    rows = base
+    for _ in range(40):
+        rows = sg.random_regauge(rng, base, steps=4 * n)
+        if any(r["s"] for r in rows):
+            break
+    return QuantumState(pj.rows_to_tableau(sg.random_destabilizers(rng, rows), rows), rep_type="s")
+
+
+def solve(graph, rep, backend, setting=1, again=False, view=None, target=None):
     """-> (record for Trace_CircuitAll, circuit or None)"""
     from graphiq.backends.stabilizer.compiler import StabilizerCompiler
     from graphiq.backends.density_matrix.compiler import DensityMatrixCompiler
@@ -38,7 +53,7 @@ def solve(graph, rep, backend, setting=1, again=False, view=None):
     tg = {"n": n, "edges": cz.graph_edges1(view if view is not None else graph), "map": []}
     dummy = {"nq": n, "nc": 0, "np": n, "ne": 0, "ops": [], "wires": {}}
     try:
-        target = cz.target_state(graph, rep)
+        target = cz.target_state(graph, rep) if target is None else target
         compiler = StabilizerCompiler() if backend == "stabilizer" else DensityMatrixCompiler()
         compiler.measurement_determinism = "probabilistic" if setting == 2 else setting
         solver = TimeReversedSolver(target=target, metric=Infidelity(target), compiler=compiler)
@@ -101,6 +116,13 @@ def run(ctx):
                                                                  "backend": backend, "err": rec2["err"], "isolated": False,
                                                                  "insertion": "shuffled"}})
                 recs.append(rec2)
+            if 3 <= n <= 5 and gi % 3 == 2 and g.number_of_edges() >= 2 and not any(d == 0 for _, d in g.degree()):
+                # the same target in another gauge, with signed generators
+                rec3, _c3 = solve(g, "s", "stabilizer", setting=rng.choice([0, 1, 2]), target=signed_gauge_target(rng, g))
+                tid += 1
+                rec3.update({"tid": tid, "events": [], "meta": {"n": n, "edges": rec3["target"]["edges"], "rep": "s-signed-gauge",
+                                                                 "backend": "stabilizer", "err": rec3["err"], "isolated": False}})
+                recs.append(rec3)
             rec, circuit = solve(g, rep, backend, setting=rng.choice([0, 1, 2]), again=(gi % 5 == 3))
             tid += 1
             rec["tid"] = tid
